@@ -11,9 +11,13 @@ RULE = ('seeded histories (1..10 calls) of send / sendline / write / writelines 
         'reader thread pre-emption). Oracle: kernel log of bytes written towards the peer == what the peer read == concatenation '
         'in call order of the arguments encoded by ONE incremental encoder for the whole history (+ one linesep per sendline, one '
         'control byte per mapped control call, nothing for unmapped); send/sendline return the number of bytes written; write '
-        'returns None. Non-trivial: >= 1 byte sent; distinct by trace digest')
+        'returns None. Added later: stateful encodings (iso2022_jp), torn reads and awaited reads inside the histories, linesep / '
+        'delaybeforesend changed between calls. Non-trivial: >= 1 byte sent; distinct by trace digest')
 
-ASSUME = ['complete writes on blocking descriptors (short writes are not injected on this path)',
+ASSUME = ['fault-free runs: complete writes on blocking descriptors. Two fault configurations are kept apart and judged per call with '
+          'a relaxed oracle (the peer holds a PREFIX of what the call was asked to send, send()/sendline() return what arrived): short '
+          'writes on the pty (a signal during a long write), and a socket with its own timeout against a peer that stops reading '
+          '(sendall gives up midway; socket.send takes what fits)',
           'os.linesep is LF on this platform']
 
 
